@@ -220,6 +220,30 @@ Theorem C16_text_draws_lines :
 Proof. exact draw_softwrap_ok. Qed.
 Print Assumptions C16_text_draws_lines.
 
+(* The unguarded clause "the widgets draw exactly the emitted lines" (surface_exact_b: moreover
+   every character of a shown line that starts inside the surface is in the cell at its column)
+   holds outside the explicit guard of the recorded finding zero-width-overdraw ... *)
+Theorem C16_text_draws_lines_exact :
+  forall (restyle : cell -> cell) (fill : Z) (lines : list (list cell)) (MaxW MaxH : Z),
+    0 <= MaxW < 65536 -> 0 <= MaxH < 65536 -> zlen lines < 65536 ->
+    Forall (fun l => wok l /\ sumw l < 65536) lines ->
+    has_zero_width lines = false ->
+    exists obs, draw_softwrap restyle fill lines MaxW MaxH = Some obs /\
+                surface_exact_b restyle fill lines MaxW MaxH obs = true.
+Proof. exact draw_softwrap_exact. Qed.
+Print Assumptions C16_text_draws_lines_exact.
+
+(* ... and fails inside it: a zero-width grapheme (here ZWSP) followed by another grapheme is
+   overwritten in its cell *)
+Theorem C16_text_draws_lines_zero_width_refuted :
+  let lines := [[mkCell [8203] 0 0; mkCell [97] 1 0]] in
+  has_zero_width lines = true /\
+  exists obs, draw_softwrap (fun c => c) 0 lines 5 5 = Some obs /\
+              surface_ok_b (fun c => c) 0 lines 5 5 obs = true /\
+              surface_exact_b (fun c => c) 0 lines 5 5 obs = false.
+Proof. exact draw_zero_width_refuted. Qed.
+Print Assumptions C16_text_draws_lines_zero_width_refuted.
+
 (* ---------------- non-vacuity ---------------- *)
 (* the hypotheses hold for uniseg's own tables of "x ab-cd" (break opportunities after "x " and
    "ab-") and of "foo\nbar" (mandatory break after the newline), at width 2 *)
